@@ -38,7 +38,8 @@ StdOpts(p) == (IF p.opts.pkgs = "omit" THEN <<>> ELSE <<"GoPackage", "GoModule",
 PktNames(p) == {p.pkts[j].name : j \in 1..Len(p.pkts)}
 MetaNames(p) == {p.metas[j].name : j \in 1..Len(p.metas)}
 FieldNames(pk) == {pk.fields[i].name : i \in 1..Len(pk.fields)}
-PairLits(f) == FoldLeft(LAMBDA acc, q : acc \o [x \in 1..Len(f.pairs[q].lits) |-> [lit |-> f.pairs[q].lits[x], q |-> q]], <<>>, [q \in 1..Len(f.pairs) |-> q])
+\* a key is identified by its canonical bytes (010 and 10 are the same key), reported with the pair it stands in
+PairLits(f) == FoldLeft(LAMBDA acc, q : acc \o [x \in 1..Len(f.pairs[q].lits) |-> [lit |-> f.pairs[q].keys[x], q |-> q]], <<>>, [q \in 1..Len(f.pairs) |-> q])
 
 IllFormed(p) ==
      { <<"dupPacket", <<"pkt", j>>>> : j \in {j \in 1..Len(p.pkts) : \E h \in 1..(j-1) : p.pkts[h].name = p.pkts[j].name} }
@@ -182,6 +183,9 @@ AppendField(p, j, f) == [p EXCEPT !.pkts[j].fields = Append(@, f)]
 MatchIdx(pk) == {i \in 1..Len(pk.fields) : pk.fields[i].k = "match"}
 Faults(p) ==
      { [class |-> "dupPacket", prog |-> [p EXCEPT !.pkts = Append(@, p.pkts[j])]] : j \in {j \in 1..Len(p.pkts) : ~p.pkts[j].root} }
+\* a non-root packet declared BEFORE the root packet under the root's name: the root declaration is the duplicate
+\cup { [class |-> "dupPacket", prog |-> [p EXCEPT !.pkts = <<[name |-> p.pkts[j].name, root |-> FALSE, fields |-> <<Sc("solo", "u8")>>]>> \o @]] :
+         j \in {j \in 1..Len(p.pkts) : p.pkts[j].root} }
 \cup { [class |-> "dupMeta", prog |-> [p EXCEPT !.metas = Append(@, p.metas[j])]] : j \in 1..Len(p.metas) }
 \cup { [class |-> "dupMeta", prog |-> [p EXCEPT !.metas = Append(Append(@, [MetaE("Again", "", "", 0, "none") EXCEPT !.ref = p.metas[1].name]), MetaE("Again", "int", "u32", 0, "none"))]] :
          x \in IF p.metas = <<>> THEN {} ELSE {1} }
@@ -217,6 +221,10 @@ Faults(p) ==
              \cup { [class |-> "undeclaredKeyField", prog |-> [p EXCEPT !.pkts[j].fields[i].key = "nokey"]] : i \in MatchIdx(p.pkts[j]) }
              \cup { [class |-> "undeclaredPacket", prog |-> [p EXCEPT !.pkts[j].fields[i].pairs[1].pkt = "Nope"]] : i \in MatchIdx(p.pkts[j]) }
              \cup { [class |-> "dupMatchKey", prog |-> [p EXCEPT !.pkts[j].fields[i].pairs = Append(@, [@[1] EXCEPT !.pkt = @])]] : i \in MatchIdx(p.pkts[j]) }
+             \* the same integer key again, spelled with a leading zero, inside a key LIST
+             \cup { [class |-> "dupMatchKey", prog |-> [p EXCEPT !.pkts[j].fields[i].pairs =
+                        Append(@, [keys |-> <<@[1].keys[1], <<250, 250>> >>, lits |-> <<"0" \o @[1].lits[1], "64250">>, pkt |-> @[1].pkt])]] :
+                      i \in {i \in MatchIdx(p.pkts[j]) : p.pkts[j].fields[i].pairs[1].lits[1] \in {"1", "2", "3"}} }
              \cup { [class |-> "dupMatchKey", prog |-> [p EXCEPT !.pkts[j].fields[i].pairs[Len(p.pkts[j].fields[i].pairs)] =
                                                         [@ EXCEPT !.lits = Append(@, p.pkts[j].fields[i].pairs[1].lits[1]), !.keys = Append(@, p.pkts[j].fields[i].pairs[1].keys[1])]]] :
                       i \in {i \in MatchIdx(p.pkts[j]) : Len(p.pkts[j].fields[i].pairs) > 1} }
